@@ -123,6 +123,48 @@ func vfTamper(rt *rapid.T, resp []byte, other []byte, id refobfs4.Identity) ([]b
 	}
 }
 
+// vfReleaseResponse releases a server response of respLen bytes (followed by
+// whatever else is pending) with cuts drawn relative to its fields
+// Y'(32) | AUTH(32) | padding | M_S(16) | MAC_S(16): inside MAC_S, inside the
+// mark, at the key / AUTH boundaries, inside the seed frame that follows - and
+// then the rest in generic chunk plans.
+func vfReleaseResponse(rt *rapid.T, n *wire.Net, s wire.Side, respLen int, label string, wait ...wire.Side) error {
+	if respLen >= 96 && n.Pending(s) >= respLen && rapid.IntRange(0, 9).Draw(rt, label+"Structured") < 7 {
+		var cut int
+		switch rapid.IntRange(0, 6).Draw(rt, label+"Field") {
+		case 0, 1:
+			cut = respLen - rapid.IntRange(0, 16).Draw(rt, label+"InMAC")
+		case 2:
+			cut = respLen - 16 - rapid.IntRange(1, 16).Draw(rt, label+"InMark")
+		case 3:
+			cut = 32 + rapid.IntRange(-1, 1).Draw(rt, label+"AtKey")
+		case 4:
+			cut = 64 + rapid.IntRange(-1, 1).Draw(rt, label+"AtAuth")
+		case 5:
+			cut = respLen + rapid.IntRange(1, 45).Draw(rt, label+"InSeedFrame")
+		default:
+			cut = rapid.IntRange(1, respLen).Draw(rt, label+"Anywhere")
+		}
+		if cut > n.Pending(s) {
+			cut = n.Pending(s)
+		}
+		n.Release(s, cut)
+		if err := n.WaitQuiescent(wait...); err != nil {
+			return err
+		}
+		if more := rapid.IntRange(0, 20).Draw(rt, label+"ThenFew"); more > 0 && n.Pending(s) > 0 {
+			if more > n.Pending(s) {
+				more = n.Pending(s)
+			}
+			n.Release(s, more)
+			if err := n.WaitQuiescent(wait...); err != nil {
+				return err
+			}
+		}
+	}
+	return vfReleaseChunks(rt, n, s, label, wait...)
+}
+
 func vfC02Case(rt *rapid.T, c *ev.Collector) {
 	rk := rapid.Uint64().Draw(rt, "randKey")
 	defer vfRandSeedKey(rk)()
@@ -177,7 +219,7 @@ func vfC02Case(rt *rapid.T, c *ev.Collector) {
 				rt.Fatalf("VIOL[c02-ephemeral-key-reused]: two server connections sent the same ephemeral key representative %x", y)
 			}
 			seenY[y] = true
-			if err := vfReleaseChunks(rt, n, wire.B, "s2c", wire.A, wire.B); err != nil {
+			if err := vfReleaseResponse(rt, n, wire.B, n.Pending(wire.B)-refobfs4.SeedFrameLen, "s2c", wire.A, wire.B); err != nil {
 				rt.Fatalf("VIOL[c02-wedge]: %v", err)
 			}
 			for name, ep := range map[string]*drive.Endpoint{"client": cl, "server": sv} {
@@ -401,7 +443,7 @@ func vfC02Case(rt *rapid.T, c *ev.Collector) {
 		out := append(sv.Response(), enc.Frame(refobfs4.PktSeed, ent(24), 0)...)
 		out = append(out, enc.Frame(refobfs4.PktPayload, []byte("attacker data"), 0)...)
 		n.Inject(wire.B, out)
-		if err := vfReleaseChunks(rt, n, wire.B, "s2c", wire.A); err != nil {
+		if err := vfReleaseResponse(rt, n, wire.B, len(sv.Response()), "s2c", wire.A); err != nil {
 			rt.Fatalf("VIOL[c02-wedge]: %v", err)
 		}
 		if msg := vfClientMustFail(n, cl, endByDeadline, desc); msg != "" {
@@ -454,7 +496,7 @@ func vfC02Case(rt *rapid.T, c *ev.Collector) {
 		}
 		tail := p.N.PendingBytes(wire.B)[len(resp):]
 		p.N.SetPending(wire.B, append(mod, tail...))
-		if err := vfReleaseChunks(rt, p.N, wire.B, "s2c", wire.A); err != nil {
+		if err := vfReleaseResponse(rt, p.N, wire.B, len(mod)-refobfs4.SeedFrameLen, "s2c", wire.A); err != nil {
 			rt.Fatalf("VIOL[c02-wedge]: %v", err)
 		}
 		if msg := vfClientMustFail(p.N, p.Cl, endByDeadline, desc); msg != "" {
@@ -470,7 +512,7 @@ func vfC02Case(rt *rapid.T, c *ev.Collector) {
 func TestVerifC02Scenarios(t *testing.T) {
 	vfSetup(t)
 	c := ev.For("C02")
-	c.Rule("scenarios: generated identity, node ID, seed, bridge-line form and chunk plans; scenario in {retry-after-failure (one client factory: a first attempt fails because the network fails while the handshake is written / the server stays silent / EOF, then a second connection through the same factory must complete and must not reuse the representative already sent), genuine (1-3 sequential connections, echo both ways, all ephemeral representatives distinct), one bit of the client's node ID / public key flipped (real server), impostor = reference server that knows the public bridge line only (AUTH from its own key, random AUTH, AUTH of another handshake, genuine AUTH with another Y', low-order Y'), tamper = modification of a genuine response in flight (blind: one bit of Y'|AUTH|M_S|MAC_S, a padding bit, insert / delete one byte, truncate, substitute another connection's response; informed: one bit of Y'|AUTH with mark and MAC recomputed from the public bridge line) with server payload queued behind it}; oracle: genuine => Dial/WrapConn succeed and data flows; otherwise, after the exchange ends by EOF or the fired client deadline, Dial has returned an error and zero application bytes surfaced; non-trivial = any non-genuine scenario or a genuine one delivered in >= 3 segments; fingerprint = scenario + parameters")
+	c.Rule("scenarios: generated identity, node ID, seed, bridge-line form and chunk plans; scenario in {retry-after-failure (one client factory: a first attempt fails because the network fails while the handshake is written / the server stays silent / EOF, then a second connection through the same factory must complete and must not reuse the representative already sent), genuine (1-3 sequential connections, echo both ways, all ephemeral representatives distinct), one bit of the client's node ID / public key flipped (real server), impostor = reference server that knows the public bridge line only (AUTH from its own key, random AUTH, AUTH of another handshake, genuine AUTH with another Y', low-order Y'), tamper = modification of a genuine response in flight (blind: one bit of Y'|AUTH|M_S|MAC_S, a padding bit, insert / delete one byte, truncate, substitute another connection's response; informed: one bit of Y'|AUTH with mark and MAC recomputed from the public bridge line) with server payload queued behind it}; every server response is released with cuts drawn relative to its fields (inside MAC_S, inside the mark, at the Y' / AUTH boundaries, inside the seed frame behind it) before generic chunk plans; oracle: genuine => Dial/WrapConn succeed and data flows; otherwise, after the exchange ends by EOF or the fired client deadline, Dial has returned an error and zero application bytes surfaced; non-trivial = any non-genuine scenario or a genuine one delivered in >= 3 segments; fingerprint = scenario + parameters")
 	c.Assume("cryptographic strength (HMAC, X25519, SHA-256) is assumed; what is tested is that every check is wired in and bound to the right inputs")
 	for _, s := range []string{"genuine", "wrong-nodeid-bit", "wrong-pubkey-bit", "impostor", "tamper", "retry-after-failure"} {
 		c.Floor("scenario-"+s, 0.08)
